@@ -209,9 +209,6 @@ namespace ratio
 #elif LA_TN
                         leqs[&atm0][&atm1] = get_solver().get_lra_theory().new_leq(a0_end->l, a1_start->l);
                         leqs[&atm1][&atm0] = get_solver().get_lra_theory().new_leq(a1_end->l, a0_start->l);
-                        // we boost propagation..
-                        [[maybe_unused]] bool nc = get_solver().get_sat_core().new_clause({!leqs[&atm0][&atm1], !leqs[&atm1][&atm0]});
-                        assert(nc);
 #endif
                         found = true;
                     }
@@ -228,9 +225,6 @@ namespace ratio
 #elif LA_TN
                 leqs[&atm0][&atm1] = get_solver().get_lra_theory().new_leq(a0_end->l, a1_start->l);
                 leqs[&atm1][&atm0] = get_solver().get_lra_theory().new_leq(a1_end->l, a0_start->l);
-                // we boost propagation..
-                [[maybe_unused]] bool nc = get_solver().get_sat_core().new_clause({!leqs[&atm0][&atm1], !leqs[&atm1][&atm0]});
-                assert(nc);
 #endif
             }
         }
@@ -244,9 +238,6 @@ namespace ratio
 #elif LA_TN
                 leqs[&atm0][&atm1] = get_solver().get_lra_theory().new_leq(a0_end->l, a1_start->l);
                 leqs[&atm1][&atm0] = get_solver().get_lra_theory().new_leq(a1_end->l, a0_start->l);
-                // we boost propagation..
-                [[maybe_unused]] bool nc = get_solver().get_sat_core().new_clause({!leqs[&atm0][&atm1], !leqs[&atm1][&atm0]});
-                assert(nc);
 #endif
             }
         }
@@ -258,9 +249,6 @@ namespace ratio
 #elif LA_TN
             leqs[&atm0][&atm1] = get_solver().get_lra_theory().new_leq(a0_end->l, a1_start->l);
             leqs[&atm1][&atm0] = get_solver().get_lra_theory().new_leq(a1_end->l, a0_start->l);
-            // we boost propagation..
-            [[maybe_unused]] bool nc = get_solver().get_sat_core().new_clause({!leqs[&atm0][&atm1], !leqs[&atm1][&atm0]});
-            assert(nc);
 #endif
         }
     }
